@@ -27,6 +27,8 @@ def main():
     sys.path.insert(0, src)
     os.environ["VERIF_SRC"] = src
     mod = importlib.import_module(modname)
+    from . import forms
+    forms.install(mod)
     import pyunicorn
     assert os.path.realpath(pyunicorn.__file__).startswith(
         os.path.realpath(src)), pyunicorn.__file__
@@ -40,6 +42,7 @@ def main():
             ctx = core.Ctx(prop, mod.LEVEL, modname, a.tier, seed)
             try:
                 mod.run(ctx)
+                forms.attach(ctx)
             finally:
                 ctx.close()
             rc = ctx.finish()
